@@ -407,6 +407,8 @@ pub struct Run {
     pub extra: Map<String, Value>,
     /// only run parts whose name is listed (sub-process mode), empty = all
     pub only_parts: Vec<String>,
+    /// per-case wall-clock budget for parts whose cases must terminate (searches); None = no watchdog
+    pub watchdog_secs: Option<u64>,
 }
 
 impl Run {
@@ -432,6 +434,7 @@ impl Run {
             assumptions: vec![],
             extra: Map::new(),
             only_parts: vec![],
+            watchdog_secs: None,
         }
     }
 
@@ -472,7 +475,28 @@ impl Run {
                 Err(e) => infra(&format!("replay case does not deserialise for part {name}: {e}")),
             };
             let mut st = Stats::default();
+            let replay_done = std::sync::Arc::new(AtomicBool::new(false));
+            if let Some(secs) = self.watchdog_secs {
+                let done = replay_done.clone();
+                let (id, part, cv) = (self.id, name.to_string(), case_v.clone());
+                std::thread::spawn(move || {
+                    let t0 = Instant::now();
+                    while t0.elapsed().as_secs() < secs {
+                        std::thread::sleep(std::time::Duration::from_millis(200));
+                        if done.load(Ordering::Relaxed) {
+                            return;
+                        }
+                    }
+                    let path = write_replay_file(id, &part, &cv, &format!("case did not finish within {secs} s when run alone"), "does_not_terminate", &Value::Null, true);
+                    println!("replay: case did not finish within {secs} s when run alone");
+                    println!("VIOLATION property={id} replay={path}");
+                    use std::io::Write;
+                    let _ = std::io::stdout().flush();
+                    std::process::exit(1);
+                });
+            }
             let r = run_case(&f, &case, &mut st);
+            replay_done.store(true, Ordering::Relaxed);
             match r {
                 Ok(()) => println!("replay: case passes ({} evaluations)", st.evaluations),
                 Err(fail) => {
@@ -537,7 +561,29 @@ impl Run {
         let id = self.id;
         let seed = self.seed;
         let part_hash = hash_of(&(id, name));
+        let watchdog = self.watchdog_secs;
+        let running: Vec<Mutex<Option<(Instant, String)>>> = (0..workers).map(|_| Mutex::new(None)).collect();
+        let finished = std::sync::atomic::AtomicUsize::new(0);
         std::thread::scope(|scope| {
+            if let Some(secs) = watchdog {
+                let running = &running;
+                let finished = &finished;
+                let part_name = name.to_string();
+                scope.spawn(move || {
+                    while finished.load(Ordering::Relaxed) < workers {
+                        std::thread::sleep(std::time::Duration::from_millis(500));
+                        for slot in running.iter() {
+                            let expired = match &*slot.lock().unwrap() {
+                                Some((t0, case)) if t0.elapsed().as_secs() >= secs => Some(case.clone()),
+                                _ => None,
+                            };
+                            if let Some(case) = expired {
+                                watchdog_expired(id, &part_name, &case, secs);
+                            }
+                        }
+                    }
+                });
+            }
             for w in 0..workers {
                 let stop = &stop;
                 let cases_run = &cases_run;
@@ -547,6 +593,8 @@ impl Run {
                 let strategy = &strategy;
                 let known_sigs = &known_sigs;
                 let part_name = name.to_string();
+                let my_slot = &running[w];
+                let finished = &finished;
                 std::thread::Builder::new()
                     .stack_size(64 << 20)
                     .spawn_scoped(scope, move || {
@@ -576,7 +624,14 @@ impl Run {
                                 cases_run.fetch_add(1, Ordering::Relaxed);
                             }
                             let mut s = st.borrow_mut();
-                            match run_case(f, &case, &mut s) {
+                            if watchdog.is_some() {
+                                *my_slot.lock().unwrap() = Some((Instant::now(), serde_json::to_string(&case).unwrap_or_default()));
+                            }
+                            let outcome = run_case(f, &case, &mut s);
+                            if watchdog.is_some() {
+                                *my_slot.lock().unwrap() = None;
+                            }
+                            match outcome {
                                 Ok(()) => Ok(()),
                                 Err(fail) => {
                                     if known_sigs.iter().any(|k| *k == fail.signature) {
@@ -612,6 +667,7 @@ impl Run {
                         let mut s = st.into_inner();
                         s.frozen = false;
                         merged.lock().unwrap().merge(s);
+                        finished.fetch_add(1, Ordering::Relaxed);
                     })
                     .unwrap();
             }
@@ -871,6 +927,68 @@ impl Run {
             1
         }
     }
+}
+
+/// A case exceeded its wall-clock budget while other workers were busy. It is re-run alone in a
+/// fresh process with the same budget: only if it exceeds the budget there too is it a violation
+/// (termination); otherwise the run is inconclusive (exit 2), never a verdict.
+fn watchdog_expired(id: &str, part: &str, case_json: &str, secs: u64) -> ! {
+    use std::io::Write;
+    let case: Value = serde_json::from_str(case_json).unwrap_or(Value::Null);
+    let path = write_replay_file(id, part, &case, &format!("case exceeded {secs} s under load; re-run alone"), "slow_or_stuck", &Value::Null, false);
+    println!("watchdog: a case of part {part} exceeded {secs} s; re-running it alone ({path})");
+    let _ = std::io::stdout().flush();
+    let exe = std::env::current_exe().unwrap_or_else(|_| infra("current_exe"));
+    let child = std::process::Command::new(exe)
+        .args([id, "--replay", &path])
+        .env("VERIF_WATCHDOG_CONFIRM", "1")
+        .status();
+    match child {
+        Ok(s) if s.code() == Some(1) => {
+            // the child printed the VIOLATION line
+            std::process::exit(1);
+        }
+        _ => {
+            println!("INCONCLUSIVE: the case finished when run alone (slow under load, not stuck)");
+            std::process::exit(2);
+        }
+    }
+}
+
+/// Run another build of this binary (the `fast` profile) on some parts and merge its report.
+pub fn run_sub_process(run: &mut Run, bin: &str, parts: &[&str]) {
+    if run.replay.is_some() {
+        return;
+    }
+    let out = format!("{VERIF_ROOT}/target/sub-{}-{}.json", run.id, std::process::id());
+    let _ = std::fs::create_dir_all(format!("{VERIF_ROOT}/target"));
+    let status = std::process::Command::new(bin)
+        .args([run.id, "--tier", run.tier.name(), "--parts", &parts.join(",")])
+        .env("VERIF_SUB_OUT", &out)
+        .env("VERIF_SEED", run.seed.to_string())
+        .status();
+    let code = match status {
+        Ok(s) => s.code().unwrap_or(2),
+        Err(e) => infra(&format!("cannot run {bin}: {e}")),
+    };
+    if code == 2 {
+        infra("sub-process run was inconclusive");
+    }
+    let v: Value = std::fs::read_to_string(&out)
+        .ok()
+        .and_then(|t| serde_json::from_str(&t).ok())
+        .unwrap_or_else(|| infra("sub-process wrote no report"));
+    let _ = std::fs::remove_file(&out);
+    for viol in v["violations"].as_array().cloned().unwrap_or_default() {
+        run.violations.push(Violation {
+            part: format!("{}@{}", viol["part"].as_str().unwrap_or(""), v["profile"].as_str().unwrap_or("")),
+            msg: viol["msg"].as_str().unwrap_or("").to_string(),
+            signature: "sub-process".into(),
+            replay: viol["replay"].as_str().unwrap_or("").to_string(),
+        });
+    }
+    let key = format!("profile_{}", v["profile"].as_str().unwrap_or("other"));
+    run.extra.insert(key, v);
 }
 
 fn run_case<C: Serialize, F: Fn(&C, &mut Stats) -> Result<(), Fail>>(f: &F, case: &C, st: &mut Stats) -> Result<(), Fail> {
